@@ -93,9 +93,33 @@ fn run_join(l: &[(i64, i64)], r: &[(i64, i64)], v: Variant, a: Algo) -> Vec<El<P
     }
 }
 
+/// Many keys (more than any internal table, chunk or batch size): keys 0..1500 on the left (every
+/// tenth twice), 500..2000 on the right; one interleaving per canonical answer of the select.
+fn case_many_keys(v: Variant, a: Algo) -> Scenario {
+    let mut l: Vec<(i64, i64)> = vec![];
+    for k in 0..1500i64 {
+        l.push((k, k));
+        if k % 10 == 0 {
+            l.push((k, 5000 + k));
+        }
+    }
+    let r: Vec<(i64, i64)> = (500..2000i64).map(|k| (k, 10_000 + k)).collect();
+    let mut s = case(l, r, v, a);
+    // the default answer of every select instead of all of them
+    s.params.free_kinds = vec![crate::rt::Kind::Driver];
+    // (the driver fills both inputs before the operator runs)
+    s.params.channel_capacity = 4000;
+    s
+}
+
 fn case(l: Vec<(i64, i64)>, r: Vec<(i64, i64)>, v: Variant, a: Algo) -> Scenario {
-    let name = format!("C08/op/{:?}-{:?}/L{:?}/R{:?}", a, v, l, r).replace(' ', "");
-    let descr = format!("{:?} {:?} join of left {:?} and right {:?} (key, id), every interleaving of the two sides' batches and end markers", a, v, l, r);
+    let big = l.len() + r.len() > 12;
+    let name = if big { format!("C08/op/{:?}-{:?}/many-keys-L{}-R{}", a, v, l.len(), r.len()) } else { format!("C08/op/{:?}-{:?}/L{:?}/R{:?}", a, v, l, r).replace(' ', "") };
+    let descr = if big {
+        format!("{:?} {:?} join of {} left and {} right elements over 2000 keys, each in its own batch, default answers of the select", a, v, l.len(), r.len())
+    } else {
+        format!("{:?} {:?} join of left {:?} and right {:?} (key, id), every interleaving of the two sides' batches and end markers", a, v, l, r)
+    };
     let nontrivial = !l.is_empty() && !r.is_empty();
     let mut s = select_scenario(
         name,
@@ -128,7 +152,13 @@ fn case(l: Vec<(i64, i64)>, r: Vec<(i64, i64)>, v: Variant, a: Algo) -> Scenario
                 let sig = if got.len() < exp.len() { "missing" } else if got.len() > exp.len() { "extra" } else { "wrong" };
                 return Some(Fail::new(
                     format!("c08-{:?}-{:?}-{sig}", a, v),
-                    format!("{:?} {:?} join of L={:?} R={:?}: got {:?}, the relational join is {:?}", a, v, l, r, got, exp),
+                    if big {
+                        let missing: Vec<&Pair> = exp.iter().filter(|x| !got.contains(x)).take(4).collect();
+                        let extra: Vec<&Pair> = got.iter().filter(|x| !exp.contains(x)).take(4).collect();
+                        format!("{:?} {:?} join over many keys: got {} pairs, the relational join has {}; first missing {:?}, first unexpected {:?}", a, v, got.len(), exp.len(), missing, extra)
+                    } else {
+                        format!("{:?} {:?} join of L={:?} R={:?}: got {:?}, the relational join is {:?}", a, v, l, r, got, exp)
+                    },
                 ));
             }
             None
@@ -166,6 +196,7 @@ fn build(tier: Tier) -> Vec<Scenario> {
                     out.push(case(l.clone(), r.iter().map(|(k, i)| (*k, i + 10)).collect(), v, a));
                 }
             }
+            out.push(case_many_keys(v, a));
         }
     }
     out.extend(super::c08_jobs::scenarios(tier));
@@ -176,7 +207,7 @@ pub fn spec() -> PropSpec {
     PropSpec {
         id: "C08",
         build,
-        rule: "operator level, through the real two-input Start: every pair of input lists of <= 2 (quick) / 3 (thorough) elements over keys {0,1} (duplicates, one-sided keys, an empty side) x {inner, left, outer} x {hash-shipped hash / sort-merge, keyed-stream join, broadcast-shipped hash / sort-merge}; each element and each end marker travels in its own batch and EVERY answer of the two-way select is enumerated, i.e. every interleaving of left and right arrivals and of which side ends first; oracle = nested-loop relational join with None padding; plus whole jobs (hash and broadcast shipping, 2 source replicas per side, parallelism 1-2) and interval joins under schedule exploration; non-trivial = both sides non-empty",
+        rule: "operator level, through the real two-input Start: every pair of input lists of <= 2 (quick) / 3 (thorough) elements over keys {0,1} (duplicates, one-sided keys, an empty side) x {inner, left, outer} x {hash-shipped hash / sort-merge, keyed-stream join, broadcast-shipped hash / sort-merge}; each element and each end marker travels in its own batch and EVERY answer of the two-way select is enumerated, i.e. every interleaving of left and right arrivals and of which side ends first; oracle = nested-loop relational join with None padding; plus one scale case per variant (1650 left and 1500 right elements over 2000 keys); plus whole jobs (hash and broadcast shipping, 2 source replicas per side, parallelism 1-2) and interval joins under schedule exploration; non-trivial = both sides non-empty",
         assumptions: &["inputs of at most 3 elements per side over 2 keys"],
         exhaustive_when_uncapped: true,
         budget_s: (50, 1500),
